@@ -11,7 +11,7 @@ Families of cases (see `bounds`):
   E  environment layering: [env], <=3 [env:PATTERN] sections in every order, copy_env, layouts
   O  each documented watcher option in {absent, typical, edge}, one and two (thorough: three) at a time
   R  references $(circus.env.X) / ((circus.env.X)) in every kind of option, one and two at a time
-  S  [circus] and [socket:NAME] options, one and two at a time
+  S  [circus] options, one and two at a time (socket option typing/defaults are outside the property)
 """
 import copy
 import hashlib
@@ -39,7 +39,7 @@ RULE = ('ini files are generated from a grammar, exhaustively inside the bounds:
         'watchers x 2 content modes; family O = every documented watcher option slot in {absent, typical, '
         'edge}, all singles and pairs (thorough: triples) on either watcher; family R = both reference '
         'syntaxes x 4 spellings x 3 embeddings x 8 definition sites x every target option kind, singles and '
-        'pairs of targets; family S = [circus]/[socket] option slots, singles and pairs. A case is '
+        'pairs of targets; family S = [circus] option slots, singles and pairs (in [socket:*] and [plugin:*] sections only references are compared). A case is '
         'non-trivial when the documentation defines its meaning (the reference reader does not raise '
         'Undefined); cases are distinct by file text; an outcome is the digest of everything observed '
         '(typed option values, worker environments, socket/plugin/circus values).')
@@ -76,7 +76,7 @@ def bounds(tier):
         'reference_targets': [t[0] for t in TARGETS],
         'reference_forms': len(FORMS), 'reference_embeddings': len(EMBED), 'definition_sites': len(SITES),
         'reference_targets_at_a_time': 2,
-        'circus_socket_slots': len(CS_SLOTS), 'circus_socket_at_a_time': 2,
+        'circus_slots': len(CS_SLOTS), 'circus_slots_at_a_time': 2,
         'scratch': 'tempfile.mkdtemp() per shard, removed in a finally',
     }
 
@@ -208,7 +208,7 @@ SLOTS = [
     ('virtualenv_py_ver', [('virtualenv_py_ver', '3.3'), ('virtualenv', SCR + '/venv'), ('copy_env', 'True')],
      [('virtualenv_py_ver', '2.7'), ('virtualenv', SCR + '/venv'), ('copy_env', 'True')]),
     ('rlimit_nofile', [('rlimit_nofile', '500')], [('rlimit_nofile', '')]),
-    ('rlimit_case', [('rlimit_CORE', '0')], [('RLIMIT_NPROC', '100')]),
+    ('rlimit_case', [('rlimit_CORE', '0')], [('rlimit_Nproc', '100')]),
     ('stdout_stream', [('stdout_stream.class', 'StdoutStream')],
      [('stdout_stream.class', 'FileStream'), ('stdout_stream.filename', SCR + '/out.log'),
       ('stdout_stream.max_bytes', '1024'), ('stdout_stream.backup_count', '2')]),
@@ -400,14 +400,6 @@ CS_SLOTS = [
     ('circus', 'loglevel', [('loglevel', 'DEBUG')], [('loglevel', 'info')]),
     ('circus', 'logoutput', [('logoutput', '-')], [('logoutput', 'syslog://localhost:514?user')]),
     ('circus', 'loggerconfig', [('loggerconfig', 'default')], [('loggerconfig', SCR + '/log.yaml')]),
-    ('socket', 'host', [('host', '127.0.0.1')], [('host', '0.0.0.0')]),
-    ('socket', 'port', [('port', '8888')], [('port', '0')]),
-    ('socket', 'blocking', [('blocking', 'True')], [('blocking', 'false')]),
-    ('socket', 'umask', [('umask', '000')], [('umask', '022')]),
-    ('socket', 'path', [('path', SCR + '/s.sock')], [('path', SCR + '/t.sock'), ('replace', 'True')]),
-    ('socket', 'replace', [('replace', 'True')], [('replace', 'false')]),
-    ('socket', 'so_reuseport', [('so_reuseport', 'True')], [('so_reuseport', 'false')]),
-    ('socket', 'type', [('type', 'SOCK_DGRAM')], [('type', 'SOCK_STREAM')]),
 ]
 
 
@@ -426,9 +418,7 @@ def s_case(choice):
     if secs['circus']:
         main.append(('circus', secs['circus']))
     main.append(('watcher:' + W1, [('cmd', '/bin/prog-aw')]))
-    main.append(('socket:web', secs['socket'] or [('host', '127.0.0.1')]))
-    if not secs['socket']:
-        main.append(('socket:bare', [('backlog', '10')]))     # every documented default applies
+    main.append(('socket:web', [('host', '127.0.0.1')]))
     shape = {'slots': ['%s.%s/%s' % (CS_SLOTS[si][0], CS_SLOTS[si][1], 'typical' if kind == 1 else 'edge')
                        for si, kind in choice]}
     return mkcase('S', shape, main)
@@ -806,7 +796,7 @@ class Checker(object):
         got_rl = dict((k.lower(), v) for k, v in (w.rlimits or {}).items())
         for lim, val in exp['rlimits'].items():
             rawkey = [k for k in wraw if k.lower() == 'rlimit_' + lim][0]
-            spelled = 'lower_prefix' if rawkey.startswith('rlimit_') else 'upper_prefix'
+            spelled = 'limit_lower' if rawkey == rawkey.lower() else 'limit_other_case'
             got = got_rl.get(lim, '<not a limit>')
             clause = self.clause_for(wraw[rawkey], 'C16.values_typed')
             _check(r, clause, _same(REF.INT, val, got),
@@ -924,33 +914,22 @@ class Checker(object):
                 self.fail_exc('sockets.load_from_config', e, list(sraw.items()))
                 continue
             try:
-                unix = 'path' in exp['written']
                 got = {'host': s.host, 'port': s.port, 'family': s.family.name, 'type': s.socktype.name,
-                       'interface': s.interface, 'path': s.path, 'umask': s.umask, 'replace': s.replace,
-                       'so_reuseport': s.so_reuseport, 'blocking': s.blocking}
+                       'interface': s.interface, 'path': s.path}
             finally:
                 s.close()
-            for part, clause0 in (('written', 'C16.values_typed'), ('defaults', 'C16.defaults')):
-                for k, val in exp[part].items():
-                    kind = REF.SOCKET_OPTIONS[k][0]
-                    if k == 'umask' and not unix:
-                        continue            # "the umask that will be used to create an AF_UNIX socket"
-                    if unix and k in ('host', 'port', 'family'):
-                        # "If a path is provided, **family** is forced to AF_UNIX and **host** and **port** are ignored."
-                        if k != 'family':
-                            continue
-                        val = 'AF_UNIX'
-                    g = got[k]
-                    ok = _same(kind, val, g)
-                    if k == 'host' and val == 'localhost':
-                        ok = g in ('localhost', '127.0.0.1', '::1')
-                    clause = self.clause_for(sraw.get(k), clause0)
-                    self.observed['socket.%s.%s' % (name, k)] = repr(g)
-                    _check(r, clause, ok,
-                            lambda: 'shape=socket_%s:%s/%s | [socket:%s] %s = %r is documented as %s %r, the socket holds %r'
-                            % ('option' if part == 'written' else 'default', k, _mismatch(kind, val, g), name, k,
-                               sraw.get(k), kind, val, g),
-                            'sockets.load_from_config', case, fp='%s|socket|%s|%s' % (clause, part, k))
+            # only "references in any option expand" concerns sockets; their option typing and defaults do not
+            for k, val in exp['written'].items():
+                if not REF.has_reference(sraw.get(k)):
+                    continue
+                kind = REF.SOCKET_OPTIONS[k][0]
+                g = got[k]
+                sites = self.defined_in(sraw.get(k))
+                self.observed['socket.%s.%s' % (name, k)] = repr(g)
+                _check(r, 'C16.refs_expanded', _same(kind, val, g),
+                       lambda: 'shape=socket_option:%s/%s defined_in=%s | [socket:%s] %s = %r means %s %r, the socket holds %r'
+                       % (k, _mismatch(kind, val, g), sites, name, k, sraw.get(k), kind, val, g),
+                       'sockets.load_from_config', case, fp='refs|socket|%s|%s' % (k, sites))
 
     def compare_plugins(self, ref, cfg, raw):
         r, case = self.r, self.case
